@@ -53,27 +53,44 @@ func runC20(r *Result, d *drv.Driver, tier string, seed int64, replay string) {
 	if tier == "thorough" {
 		maxOffer = 4
 	}
-	r.Rule = fmt.Sprintf("exhaustive over a 5-version universe {1.4,1.3,1.2,1.1,2.0}: every configured SupportedVersions list of length <= %d (order, duplicates; empty = default) x every offer of length <= %d, configured in one of three orders (struct literal / Handle then assignment / assignment then Handle), each sent as a real Discover Versions request to the real Server over an in-memory connection; reply compared with the model and with the property stated directly (empty offer -> whole list in order; else offer filtered by membership); "+
+	r.Rule = fmt.Sprintf("exhaustive over a 5-version universe {1.4,1.3,1.2,1.1,2.0}: every configured SupportedVersions list of length <= %d (order, duplicates; empty = default, spelled nil / empty literal / filtered-down-to-nothing) x every offer of length <= %d, configured in one of three orders (struct literal / Handle then assignment / assignment then Handle), each sent as a real Discover Versions request to the real Server over an in-memory connection; reply compared with the model and with the property stated directly (empty offer -> whole list in order; else offer filtered by membership); "+
 		"after each server's run the configuration and DefaultSupportedVersions must be unchanged and not share a backing array; the built-in handler is also called in process on each server (the only place the reply is a Go value), its reply checked for shared storage with the configuration, then overwritten and appended to, and the configuration re-read. distinct = one per (configuration, offer)", maxSup, maxOffer)
 	r.Exhaustive = true
 	sups := allLists(maxSup)
+	// "not configured" comes in three spellings: nil, an empty literal, a list filtered down to nothing (length 0, capacity left)
+	sups = append(sups, nil, nil)
+	nSup := len(sups)
 	offers := allLists(maxOffer)
 	defaultBefore := append([]kmip.ProtocolVersion(nil), kmip.DefaultSupportedVersions...)
 	for si, sup := range sups {
 		// the configuration reaches the Server in the three orders a caller may use: struct literal; other handlers registered
 		// first and the version list assigned afterwards; version list first, then handlers
+		mkSup := func() []kmip.ProtocolVersion {
+			switch {
+			case len(sup) > 0:
+				return append([]kmip.ProtocolVersion(nil), sup...)
+			case si == nSup-1:
+				r.Stats["empty-configuration:literal"]++
+				return []kmip.ProtocolVersion{}
+			case si == nSup-2:
+				r.Stats["empty-configuration:filtered"]++
+				return []kmip.ProtocolVersion{{Major: 3, Minor: 0}, {Major: 3, Minor: 1}}[:0]
+			}
+			r.Stats["empty-configuration:nil"]++
+			return nil
+		}
 		var s *kmip.Server
 		other := func(ctx *kmip.RequestContext, item *kmip.RequestBatchItem) (interface{}, error) { return nil, nil }
 		switch si % 3 {
 		case 0:
-			s = &kmip.Server{SupportedVersions: append([]kmip.ProtocolVersion(nil), sup...)}
+			s = &kmip.Server{SupportedVersions: mkSup()}
 		case 1:
 			s = &kmip.Server{}
 			s.Handle(kmip.OPERATION_ACTIVATE, other)
-			s.SupportedVersions = append([]kmip.ProtocolVersion(nil), sup...)
+			s.SupportedVersions = mkSup()
 		default:
 			s = &kmip.Server{}
-			s.SupportedVersions = append([]kmip.ProtocolVersion(nil), sup...)
+			s.SupportedVersions = mkSup()
 			s.Handle(kmip.OPERATION_ACTIVATE, other)
 		}
 		r.Stats[fmt.Sprintf("configuration-order-%d", si%3)]++
